@@ -70,6 +70,20 @@ ExplainsOp(c, r) ==
            /\ Covers(r.calls, c.a.n)
            /\ AnnouncedOK(r.calls, c.a.n)
            /\ Within(r.v, IF c.op = "trapz_idx" THEN Trapz(c.a.table) ELSE Simpson(c.a.table), c.a.n)
+      \* nested helpers: the density of the outer rule is itself an integral (inner rule over the
+      \* second argument): the iterated application of the two rules to the table f(x_i, y_j)
+      [] c.op = "nested" ->
+           /\ Clean(r) /\ Len(c.a.table) = c.a.n1 /\ \A i \in 1..c.a.n1 : Len(c.a.table[i]) = c.a.n2
+           /\ LET R1(ys, rule) == IF rule = "simpson" THEN Simpson(ys) ELSE Trapz(ys)      \* "grid" on an equidistant grid = trapezoid
+                  inner == [i \in 1..c.a.n1 |-> R1(c.a.table[i], c.a.inner)]
+              IN  Within(r.v, R1(inner, c.a.outer), c.a.n1 + c.a.n2)
+      \* fine grid far from the origin, density c0 + c1 (x - a) on [a, a + w]: both rules give
+      \* w (c0 + c1 w / 2); every sampled abscissa lies within 2 ulp of a + i h
+      [] c.op = "fargrid" ->
+           /\ Clean(r) /\ r.ncalls = c.a.n
+           /\ Within(r.v, (Unit * (2 * c.a.c0 + c.a.c1 * c.a.w)) \div (2 * (c.a.c0 + c.a.c1 * c.a.w)), 3)
+           /\ Len(r.samples) >= 4
+           /\ \A i \in 1..Len(r.samples) : r.samples[i][2] >= -2 /\ r.samples[i][2] <= 2
       [] c.op = "grid_idx" ->
            /\ Clean(r) /\ Len(c.a.gs) >= 2 /\ Len(c.a.table) = Len(c.a.gs)
            /\ \A i \in 1..Len(r.calls) : r.calls[i][1] = r.calls[i][3] /\ r.calls[i][1] \in 0..(Len(c.a.gs) - 1)
